@@ -60,6 +60,12 @@ CHECKS["C14"] = dict(
     text="Each history applies every trigger on some disk/level with or without other pending changes; TLC checks that the specification's Sync refuses exactly when the binary does, that a refusal changes neither content nor parity (missing = empty parity file), and that the override lets the same sync proceed; the lock is exercised by stopping a running command at a random system call and starting every other command.",
     note="Abstractions of Array.tla; the lock is observed at process level (flock), start offsets sampled.")
 
+CHECKS["C19"] = dict(
+    cat="model_checking", design="6/C19",
+    technique="copy detection, provisional (REP) hashes, pre-hash, --force-nocopy, search and import fetch modelled in Array.tla; real histories with decoys (same name/size/stamp, other content) validated by TLC against it; invariant on real states: no block recorded as synced with a hash that is not the hash of its data",
+    text="TLC validates every sync and fix of seeded histories with true copies and decoys on other disks and in import directories, moves, zero and non-zero sub-second stamps, -h and --force-nocopy against the specification (admissible copy sources, REP blocks verified before they become BLK, pre-hash mismatch stops before any parity write, fetched blocks only by matching hash) and evaluates the C19 invariant and FixHonest on the real states.",
+    note="Inode-based identity (same inode, size, stamp) is not exercised: no usable UUID in the sandbox; disks scanned sequentially in the conformance runs (parallel scan race = finding F10).")
+
 ARRAY_NOTE = ("Abstractions of Array.tla: hash injective on the block values used, parity as encoded vector (MDS, discharged by C03), "
               "one content copy observed for the state (copy equality checked separately), scenarios without usable inodes; "
               "random 1 KiB blocks make collisions negligible.")
